@@ -124,7 +124,7 @@ RECURSIVE IPow(_, _)
 IPow(b, e) == IF e = 0 THEN 1 ELSE b * IPow(b, e - 1)
 Accept(n, lvl) == LET b == Thin[IF lvl <= Len(Thin) THEN lvl ELSE Len(Thin)]
                       m == IPow(b, IF Len(n.kids) <= 5 THEN Len(n.kids) - 1 ELSE 4)
-                  IN  b = 1 \/ (Hash(n) + Salt) % m = 0
+                  IN  b = 1 \/ n.op = "_bioLogLogitKeys" \/ (Hash(n) + Salt) % m = 0     \* the key-list cases are few: all kept
 Unused(ns) == {i \in (NL + 1)..Len(ns) :
                  ~\E j \in (i + 1)..Len(ns) : \E q \in 1..Len(ns[j].kids) : ns[j].kids[q] = i}
 Useful(n) == (NOps(nodes) + 1 = MaxOps) => Unused(nodes) \subseteq SeqToSet(n.kids)
